@@ -134,14 +134,22 @@ Proof. unfold script_reads_all. simpl. intros o H. vm_compute in H. inversion H;
 
 (* clause "`-` or no argument reads standard input under the name <stdin>": standard input is used
    iff there is no argument or the FIRST argument is "-"; then it is the only source (further
-   arguments are not read), it opens, and its lines are numbered from 1 under the translator's name *)
+   arguments are not read), it opens, it fails while being read exactly when its stream does, and its lines are numbered from 1 under the translator's name *)
 Theorem C06_stdin : forall fs glob gunzip probe flush i,
   (use_stdin (ci_args i) = true <-> ci_args i = [] \/ exists r, ci_args i = DASH :: r) /\
   (use_stdin (ci_args i) = true -> ci_gunzip i = false ->
-     cli_sources fs glob gunzip probe flush i = Some ([stdin_source flush (ci_batch i) (ci_stdin i)], 0) /\
-     input_of [stdin_source flush (ci_batch i) (ci_stdin i)] = numbered StdinName 1%N (lines_spec (ci_stdin i)) /\
-     errors_of [stdin_source flush (ci_batch i) (ci_stdin i)] = 0).
+     let src := stdin_source flush (ci_batch i) (ci_stdin i) (ci_stdin_err i) in
+     cli_sources fs glob gunzip probe flush i = Some ([src], if ci_stdin_err i then 1 else 0) /\
+     input_of [src] = numbered StdinName 1%N (lines_spec (ci_stdin i)) /\
+     errors_of [src] = (if ci_stdin_err i then 1 else 0)).
 Proof. intros. split; [apply use_stdin_spec|apply stdin_single]. Qed.
+(* standard input that fails while being read is a read error like any other: whatever it delivered
+   before, the exit status is 2 (and the lines delivered before the failure are still the model's lines) *)
+Theorem C06_stdin_failure_exit : forall fs glob gunzip probe flush i,
+  use_stdin (ci_args i) = true -> ci_gunzip i = false -> ci_stdin_err i = true ->
+  co_exit (cli_model fs glob gunzip probe flush i) = 2%Z /\ 1 <= co_nlog (cli_model fs glob gunzip probe flush i).
+Proof. exact stdin_failure_exit. Qed.
+Print Assumptions C06_stdin_failure_exit.
 Theorem C06_stdin_name : StdinName = of_str "<stdin>"%string.
 Proof. reflexivity. Qed.
 Print Assumptions C06_stdin.
@@ -165,7 +173,7 @@ Example C06_example :
   let glob := fun p => if bytes_eqb p (of_str "d/x.gz"%string) then Some [p] else Some [] in
   let gunzip := fun c => if bytes_eqb c gzc then Some (of_str "z
 "%string, false) else None in
-  let o := cli_model fs glob gunzip (fun _ => 4096) [] (mkin [of_str "d"%string; of_str "nope"%string; of_str "d/x.gz"%string] true true 1000 [] (0, 0)%N) in
+  let o := cli_model fs glob gunzip (fun _ => 4096) [] (mkin [of_str "d"%string; of_str "nope"%string; of_str "d/x.gz"%string] true true 1000 [] false (0, 0)%N) in
   map (fun l => fst (fst l)) (co_lines o) = [of_str "d/a"%string; of_str "d/a"%string; of_str "d/s/b"%string; of_str "d/x.gz"%string; of_str "d/x.gz"%string] /\
   co_exit o = 2%Z /\ co_nlog o = 4.
 Proof. vm_compute. repeat split. Qed.
